@@ -53,6 +53,19 @@ add("C27", "ENUM", T_ENUM,
 add("C28", "ENUM", T_ENUM + " (own recursive walkers)",
     "Equal on all ordered pairs of ~12k trees vs equality of an independent canonical rendering; FindAll for 5 node kinds vs own pre-order walk; ReplaceAll for 5 kinds x 5 replacement functions vs own bottom-up model; Exprs/ExprsMany/EffectApply on both effect kinds.",
     "Trees with <=2 internal nodes plus deep self-nested ones.", "DESIGN.md §3 C28")
+
+add("C01", "ENUM", T_ENUM + " (rvref: RISC-V interpreter written from the specification; effects applied by the independent IR evaluator)",
+    "For RV32 and RV64 with all extensions: every mnemonic x register choices (distinct, all aliasing patterns over {x0,x1,x2,x31}, every register number per field) x immediate alphabets and all 4096 I/S/B/CSR immediates (thorough all 2^20 U/J) x boundary operand values^2 x addresses up to the top of the address space; the lifted effects are evaluated in the pre-state and applied in order by the independent evaluator and the result compared with the reference interpreter on x1..x31, touched CSRs, written bytes and pc; key hygiene (no x0, csr0..4095) and extension-subset invariance are checked. Exhaustive over the instruction/immediate/register-pattern alphabet stated; operand values are boundary alphabets.",
+    "Trusted: harness/rvref and harness/ir. 64-bit operand values are not enumerated exhaustively (C11 covers the gadgets for all width-1 operands). Accesses straddling 2^XLEN are excluded.", "DESIGN.md §3 C01")
+add("C02", "ENUM", T_ENUM + " (rvdec: decoder table written from the specification listings)",
+    "Quick: the structured quotient of the word space (all bits[31:20] x funct3 x opcode combinations, plus every single rd/rs1 bit and all-ones for the full configurations) in all 8 configurations; thorough: all 2^32 words x 8 configurations. Acceptance and mnemonic compared with the reference table; short inputs rejected; trailing bytes never influence name, text, type or effects.",
+    "Trusted: harness/rvref table (DESIGN.md appendix A).", "DESIGN.md §3 C02")
+add("C21", "ENUM", T_ENUM + " (reference walk with rvdec + effect equivalence under the IR evaluator)",
+    "Every code image of 1..2 blocks with <=3 words each from a 7-word alphabet (valid, undecodable) and 0..3 trailing bytes, in both orders, separated/adjacent/top-of-address-space, for rv64ima and rv32i, through the real elf block store and parser.Parse: failure iff the reference walk fails; exact tiling, bytes, text and effects equivalent to the front end's lifting.",
+    "Blocks built through elf.newBlock/newMemory via an add-only hook.", "DESIGN.md §3 C21")
+add("C25", "ENUM", T_ENUM + " (text collision search: equal text => equal lifted behaviour)",
+    "Per mnemonic of rv32ima/rv64ima all register choices from a 4-register alphabet (thorough all 32), all 4096 I/S/B immediates, all shift amounts, all CSR numbers x uimm, aq/rl and fence bits, sampled (thorough all) U/J immediates: texts are grouped and any two words with the same text must have identical effects or no witness state on which they differ; mnemonic prefix and offset(base) format checked on each.",
+    "A behavioural difference is only reported with a witness pre-state.", "DESIGN.md §3 C25")
 PENDING = {}
 def main():
     checks = []
